@@ -1,7 +1,8 @@
 """C18 — recovery re-runs only failed jobs and producers of lost data.
 
 Real code executed symbolically: ProvenanceGraph.build_graph / add, create_graph_mapper,
-GraphMapper.add / _update_token / get_equal_token / get_step_ids, DirectedAcyclicGraph,
+GraphMapper.add / _update_token / get_equal_token / replace_token / move_token_to_root /
+get_step_ids, DirectedAcyclicGraph (add, replace, promote_to_source, remove_nodes),
 persistence.utils.load_dependee_tokens, DefaultDatabaseLoadingContext.load_token,
 Token.load / _load / is_available, JobToken._load, Job.load.
 
@@ -29,16 +30,20 @@ EXPLANATION = (
     "available tokens (and at recovering job tokens), with the right availability flags, ports and edges, in both ProvenanceGraph and GraphMapper; "
     "an unavailable token without producers must raise FailureHandlingException. "
     "STEPS: on concrete workflow shapes built from schedule/execute(/transfer/transform) steps with availability still symbolic, get_step_ids is "
-    "checked for soundness (every returned job-running or scheduling step produced an unavailable token of the graph, i.e. an ancestor of the failed "
-    "inputs reachable through lost data only), completeness (every producer of an unavailable graph token is returned) and the soft-failure case "
-    "(all data available => nothing but the failed job's own schedule step)."
+    "checked for soundness (every re-loaded step that schedules / stages / runs a job other than the failed one belongs to a job whose data is lost in the graph, "
+    "and a job token is in the graph only below a lost data token), completeness (every producer of an unavailable graph token is returned) and the soft-failure case "
+    "(all data available => nothing but the failed job's own schedule/transfer steps). "
+    "TWINS: graphs that contain two EQUAL tokens (same port and tag: first execution and an earlier rollback), which GraphMapper merges preferring an available one. "
+    "Literal reading (twins_*): every re-loaded job still produced a lost token. Intent of the merge (twins_*_roots, twins_graph*): the mapper is exactly the closure over "
+    "classes of equal tokens - an available representative is a root, nothing hangs below it and nothing dangles - checked on two concrete scenarios and on every DAG with one twin pair."
 )
 ASSUMPTIONS = [
     "StubDatabase subclass answers get_token / get_port_from_token / get_dependees / get_port / get_input_steps / get_input_ports / get_step with rows shaped as SqliteDatabase returns them; sqlite itself is not under test; DetLoop; logging disabled",
-    "availability of a data token is the real Token.is_available (the persisted `recoverable` flag, symbolic); FileToken.is_available (remote path probing through the DataManager) is outside the claim; JobToken availability is its recoverable flag (symbolic; the engine always persists False)",
-    "stub failure manager: is_recovering(job) answers a symbolic boolean per job token (GRAPH) or False (STEPS)",
-    "GRAPH: every token sits on its own port with tag '0' (no two tokens of one port share a tag, so GraphMapper's equal-token replacement for loops / earlier recoveries is not exercised); n <= 5 tokens (quick) / 6 (thorough); the failed job's inputs are the last one or two tokens, or the last token plus its job token",
+    "availability of a data token is the real Token.is_available (the persisted `recoverable` flag, symbolic); FileToken.is_available (remote path probing through the DataManager) is outside the claim; JobToken availability is its recoverable flag (symbolic in GRAPH; False in STEPS/TWINS, as ScheduleStep persists it)",
+    "stub failure manager: is_recovering(job) answers a symbolic boolean per job token (GRAPH) or False (STEPS, TWINS)",
+    "GRAPH: every token sits on its own port with tag '0'; n <= 5 tokens (quick) / 6 (thorough; all DAGs for data tokens, the layered sub-family {1,2}->{3,4}->{5,6} with job tokens); the failed job's inputs are the last one, two or three tokens",
     "STEPS: concrete shapes (chain, diamond, fan-in of two sources, scatter with two tags, transfer pipeline, transformer diamond); every job-running step (execute/transfer) consumes a job port fed by its own schedule step, as the translators build them; each token's dependees are exactly the same-tag tokens on the input ports of its producing step; source ports have no producing step",
+    "TWINS: one pair of equal tokens per graph, no provenance edge between the two (no loop iteration feeding its own port); scenarios 'branch' (A->x; B(x), C(x) -> D, A rolled back between B and C) and 'stale_input' (the failed transfer step still holds the pre-rollback token, its job token was re-created from the new one); twins_graph: every DAG on 4 (quick) / 5 (thorough) data tokens with tokens (2,3), (3,4) or (2,4) equal",
     "re-execution counts of the rebuilt recovery workflow are outside the claim; a non-job step (transformer) whose output stayed available may be re-loaded when all its input ports are in the graph for a sibling (observed on the transformer diamond, not asserted against)",
 ]
 
